@@ -296,11 +296,20 @@ class SymInt:
         return bool(self != 0)
 
     def __index__(self):
+        # reached only when *native* code asks for a machine integer: enumerating a wide range is never what a check wants
+        if self.hi - self.lo > 1 << 16:
+            from .engine import Unsupported
+
+            raise Unsupported("native code needs the concrete value of a symbolic int with more than 2^16 possible values (no model for this call)")
         return _eng().concretize(self)
 
     __int__ = __index__
 
     def __hash__(self):
+        if self.hi - self.lo > 1 << 16:
+            from .engine import Unsupported
+
+            raise Unsupported("a symbolic int with more than 2^16 possible values is used as a hash key")
         return hash(_eng().concretize(self))
 
     def __repr__(self):
@@ -371,6 +380,75 @@ def _sym_shl(a, k):
     lo, hi = min(c), max(c)
     W = max(fit(lo, hi), a.w, k.w)
     return SymInt.mk(resize(a.t, W) << resize(k.t, W), lo, hi)
+
+
+_STRUCT_CODES = {"b": (1, True), "B": (1, False), "h": (2, True), "H": (2, False), "i": (4, True), "I": (4, False), "l": (4, True), "L": (4, False),
+                 "q": (8, True), "Q": (8, False)}
+
+
+def _parse_struct_fmt(fmt):
+    """-> (byteorder, [(size, signed), ...]) for standard-size integer formats, else None"""
+    import re as _re
+
+    if not fmt or fmt[0] not in "<>!=":
+        if len(fmt) >= 1 and all(ch in "bB" or ch.isdigit() for ch in fmt):
+            order, body = "little", fmt
+        else:
+            return None
+    else:
+        order, body = ("little" if fmt[0] in "<" else "big"), fmt[1:]
+        if fmt[0] == "=":
+            import sys as _sys
+
+            order = _sys.byteorder
+    fields = []
+    for cnt, code in _re.findall(r"(\d*)([a-zA-Z?])", body):
+        if code not in _STRUCT_CODES:
+            return None
+        fields += [_STRUCT_CODES[code]] * (int(cnt) if cnt else 1)
+    if "".join(f"{c}{k}" for c, k in _re.findall(r"(\d*)([a-zA-Z?])", body)) != body.replace(" ", ""):
+        return None
+    return order, fields
+
+
+def struct_pack(fmt, *vals):
+    import struct
+
+    parsed = _parse_struct_fmt(fmt)
+    if parsed is None:
+        from .engine import Unsupported
+
+        raise Unsupported(f"struct.pack({fmt!r}) with symbolic arguments")
+    order, fields = parsed
+    if len(fields) != len(vals):
+        raise struct.error(f"pack expected {len(fields)} items for packing (got {len(vals)})")
+    out = []
+    for (size, signed), v in zip(fields, vals):
+        lo, hi = (-(1 << (8 * size - 1)), (1 << (8 * size - 1)) - 1) if signed else (0, (1 << (8 * size)) - 1)
+        ok = (v >= lo) & (v <= hi) if isinstance(v, SymInt) else (lo <= v <= hi)
+        if not (ok if isinstance(ok, bool) else bool(ok)):
+            raise struct.error("argument out of range")
+        out.extend(seq_items(SymInt.lift(v).to_bytes(size, order, signed=signed) if isinstance(v, SymInt) else v.to_bytes(size, order, signed=signed)))
+    return SymBytes(out).norm()
+
+
+def struct_unpack(fmt, buf):
+    import struct
+
+    parsed = _parse_struct_fmt(fmt)
+    if parsed is None:
+        from .engine import Unsupported
+
+        raise Unsupported(f"struct.unpack({fmt!r}) on a symbolic buffer")
+    order, fields = parsed
+    items = seq_items(buf)
+    if len(items) != sum(sz for sz, _ in fields):
+        raise struct.error(f"unpack requires a buffer of {sum(sz for sz, _ in fields)} bytes")
+    out, p = [], 0
+    for size, signed in fields:
+        out.append(int_from_bytes(SymBytes(items[p : p + size]), order, signed=signed))
+        p += size
+    return tuple(out)
 
 
 def int_from_bytes(data, byteorder="big", *, signed=False):
@@ -899,6 +977,10 @@ class SymStr:
         e = _eng()
         out = []
         for p in self.parts:
+            if not isinstance(p, str) and not isinstance(p[1], int) and p[1].hi - p[1].lo > 1 << 16:
+                from .engine import Unsupported
+
+                raise Unsupported("the concrete text of a structured string with a wide symbolic field is needed (no model for this use)")
             if isinstance(p, str):
                 out.append(p)
             elif p[0] == "dec":
@@ -1108,3 +1190,58 @@ def _enc_cp(cp, codec):
     from .engine import Unsupported
 
     raise Unsupported(f"encode({codec}) of a symbolic character")
+
+
+
+class SymDict:
+    """dict literal / comprehension with symbolic keys: insertion decides key equality with the solver (a path per outcome)"""
+
+    def __init__(self):
+        self._k, self._v = [], []
+
+    def _find(self, key):
+        for i, k in enumerate(self._k):
+            r = k == key
+            if r if isinstance(r, bool) else bool(r):
+                return i
+        return None
+
+    def __setitem__(self, key, value):
+        i = self._find(key)
+        if i is None:
+            self._k.append(key)
+            self._v.append(value)
+        else:
+            self._v[i] = value
+
+    def __getitem__(self, key):
+        i = self._find(key)
+        if i is None:
+            raise KeyError(key)
+        return self._v[i]
+
+    def get(self, key, default=None):
+        i = self._find(key)
+        return default if i is None else self._v[i]
+
+    def __contains__(self, key):
+        return self._find(key) is not None
+
+    def __len__(self):
+        return len(self._k)
+
+    def __iter__(self):
+        return iter(list(self._k))
+
+    def keys(self):
+        return list(self._k)
+
+    def values(self):
+        return list(self._v)
+
+    def items(self):
+        return list(zip(self._k, self._v))
+
+    def update(self, other):
+        for k, v in (other.items() if hasattr(other, "items") else other):
+            self[k] = v
